@@ -329,8 +329,8 @@ def check(rep: Report, repo: Optional[Repo] = None) -> None:
 
 
 MANIFEST = dict(
-    technique='adapter/route sibling agreement; documentation-vs-length-vs-decoder table agreement; guard-before-index',
-    level_text='Static, structural: the two memory adapters mask and default identically, every engine attaches its adapter before its '
+    technique='adapter/route sibling agreement; documentation-vs-length-vs-decoder table agreement; guard-before-index; value-flow of pixel stores (bpp mask)',
+    level_text='Every store into the screen pixel buffer is masked to bpp bits (followed through locals, comprehensions, private helpers). Static, structural: the two memory adapters mask and default identically, every engine attaches its adapter before its '
                'loop, the native get/set API routes by the same predicate as the run loop (C07.ROUTE), the screen command layouts '
                'parsed from the documentation equal the length table and the decoder\'s field tiling, all rejections are device errors '
                'placed before the index expressions, and the data-bit offset agrees across device, debugger and stl.',
